@@ -85,6 +85,23 @@ def check(ctx):
         ok = bool(wr) and bool(en) and all(e.id in W.cfg.reachable(wr[0].id) for e in en)
     ctx.check(ok, "T1-delimit", sv, "service: iterator exhausted => write(b'') (terminating chunk) then ended = True",
               "a streamed response without length must be terminated by the empty chunk so the connection stays usable")
+    # the framing of a response is decided once (start: length/chunkable from the app's headers; build: chunked) and then fixed
+    ctx.rule("T4-framing", "Responder framing state (chunkable, chunked, length, content-length/transfer-encoding headers) is written only by __init__/reset/start/build")
+    FR = {"chunkable": ("__init__", "reset", "start"), "chunked": ("__init__", "reset", "build"), "length": ("__init__", "reset", "start")}
+    k = 0
+    for fn in [b for b in R.node.body if isinstance(b, ast.FunctionDef)]:
+        for x in ast.walk(fn):
+            if isinstance(x, ast.Attribute) and isinstance(x.ctx, ast.Store) and dotted(x.value) == "self" and x.attr in FR:
+                k += 1
+                ctx.check(fn.name in FR[x.attr], "T4-framing", x, "Responder.%s writes self.%s" % (fn.name, x.attr),
+                          "the head may already describe the other framing (or the body written later is not trimmed/terminated to "
+                          "match): bytes of this response are read as the start of the next one on a keep-alive connection")
+            if isinstance(x, ast.Subscript) and isinstance(x.ctx, (ast.Store, ast.Del)) and dotted(x.value) == "self.headers" and \
+                    (const_str(x.slice) or "").lower() in ("content-length", "transfer-encoding"):
+                k += 1
+                ctx.check(fn.name in ("build", "start"), "T4-framing", x, "Responder.%s sets the %s header" % (fn.name, const_str(x.slice)),
+                          "a framing header that start() did not see leaves .length/.chunkable describing a different framing than the head")
+    ctx.floor("T4-framing:writers", k, 8)
     vr = ctx.cls("aio.http.serving", "Valet").own_method("serviceReps")
     t_ = src(vr)
     X = FuncView(ctx, vr)
